@@ -156,7 +156,7 @@ VH_DRIVER(algebra){
       AW(true,k%2,[&]{ removebase_event<ApiA>(s,b,md,(int)(k%3==0)); },[&]{ removebase_event<ApiW>(s,b,md,(int)(k%3==0)); });
       if(k%9001==0) g.sample(J().str("source",show(s)).str("base",show(b)).num("mode",md).done()); }
     // every ordered pair of authorities that differ in exactly one part (user info, host text, host bytes high / low, port, kind), same path shapes
-    { const char* auths[]={"//h","//u@h","//v@h","//@h","//h:1","//h:2","//h:","//u@h:1","//g","//H","//1.2.3.4","//1.2.3.5","//9.2.3.4","//[::1]","//[::2]","//[1::1]","//[0:0:0:0:0:0:0:1]","//[::1.2.3.4]","//[::102:304]","//[v1.a]","//[v1.b]","//[v2.a]","//","//1.2.3.4:1","//[::1]:1"};
+    { const char* auths[]={"//h","//u@h","//v@h","//@h","//h:1","//h:2","//h:","//u@h:1","//g","//H","//1.2.3.4","//1.2.3.5","//9.2.3.4","//[::1]","//[::2]","//[1::1]","//[0:0:0:0:0:0:0:1]","//[::1.2.3.4]","//[::102:304]","//[v1.a]","//[v1.b]","//[v2.a]","//v1.a","//V1.a","//","//1.2.3.4:1","//[::1]:1","//[::1]:2","//u@[::1]","//1.2.3.4:2","//u@1.2.3.4","//[v1.a]:1","//u@[v1.a]"};
       const char* pths[]={"/a/b","/a/c"}; long q=0;
       for(auto a1:auths) for(auto a2:auths) for(int pi=0;pi<2;++pi) for(int md=0;md<2;++md){ ++q; Text s=T("s:")+T(a1)+T(pths[pi]), b=T("s:")+T(a2)+T(pths[1-pi]);
         AW(true,q%2,[&]{ removebase_event<ApiA>(s,b,md,(int)(q%3==0)); },[&]{ removebase_event<ApiW>(s,b,md,(int)(q%3==0)); }); } }
